@@ -154,3 +154,59 @@ def read_tree(root, skip=("sim.log", "pattern.txt")):
             with open(p, "rb") as fh:
                 out[os.path.normpath(os.path.join(rel, f))] = fh.read()
     return out
+
+
+def state_of(root):
+    """Property-relevant on-disk state of a run directory: data file bytes,
+    restart.toml (parsed, minus restarted_from), order/traj text of live paths."""
+    import tomli
+
+    out = {}
+    for f in sorted(os.listdir(root)):
+        if f.startswith("infretis_data"):
+            with open(os.path.join(root, f), "rb") as fh:
+                out[f] = fh.read()
+    rt = os.path.join(root, "restart.toml")
+    if os.path.isfile(rt):
+        with open(rt, "rb") as fh:
+            cfg = tomli.load(fh)
+        cfg["current"].pop("restarted_from", None)
+        out["restart.toml"] = cfg
+        load = os.path.join(root, cfg["simulation"]["load_dir"])
+        for pn in cfg["current"]["active"]:
+            # traj.txt names the trajectory files, whose names contain the pid and a
+            # per-process counter: not part of what the property promises
+            for t in ("order.txt",):
+                p = os.path.join(load, str(pn), t)
+                if os.path.isfile(p):
+                    with open(p, "rb") as fh:
+                        out[f"load/{pn}/{t}"] = fh.read()
+    return out
+
+
+def diff_states(a, b):
+    keys = sorted(set(a) | set(b))
+    return [k for k in keys if a.get(k) != b.get(k)]
+
+
+def set_steps(root, steps, toml="restart.toml"):
+    import tomli
+    import tomli_w
+
+    p = os.path.join(root, toml)
+    with open(p, "rb") as f:
+        cfg = tomli.load(f)
+    cfg["simulation"]["steps"] = steps
+    with open(p, "wb") as f:
+        tomli_w.dump(cfg, f)
+
+
+if __name__ == "__main__":
+    # python -m vf.l2 <root> <toml> : one whole-program run with the inline runner (FIFO)
+    import sys
+
+    sys.path.insert(0, os.environ.get("VERIF_REPO", "/repo"))
+    import importlib.util  # noqa: F401
+
+    prog = Program(sys.argv[1])
+    print(prog.run(sys.argv[2] if len(sys.argv) > 2 else "infretis.toml"))
